@@ -477,7 +477,7 @@ class DoIPConnection:
         self.protocol_version = protocol_version
         self.separate_diagnostic_message_queue = separate_diagnostic_message_queue
         self._diagnostic_message_queue: asyncio.Queue[DoIPDiagFrame] = asyncio.Queue()
-        self._read_queue: asyncio.Queue[DoIPFrame] = asyncio.Queue()
+        self._read_queue: asyncio.Queue[DoIPFrame | None] = asyncio.Queue()
         self._read_task = asyncio.create_task(self._read_worker())
         self._read_task.add_done_callback(
             handle_task_error,
@@ -569,6 +569,8 @@ class DoIPConnection:
         finally:
             logger.debug("Feeding EOF to reader and requesting a close")
             self.reader.feed_eof()
+            # No further frames will arrive; wake up consumers waiting for one.
+            self._read_queue.put_nowait(None)
             await self.close()
 
     async def read_frame_unsafe(self) -> DoIPFrame:
@@ -576,7 +578,12 @@ class DoIPConnection:
         # the connection has been terminated.
         if self._is_closed:
             raise ConnectionError
-        return await self._read_queue.get()
+        frame = await self._read_queue.get()
+        if frame is None:
+            # The read worker is gone; keep the marker for other consumers.
+            self._read_queue.put_nowait(None)
+            raise ConnectionError
+        return frame
 
     async def read_frame(self) -> DoIPFrame:
         async with self._mutex:
